@@ -216,7 +216,7 @@ def jac_loop(ctx, P, g, x, y, witness):
             claim = z3.Implies(z3.And(i0 >= 0, i0 < kk, p0 >= 0, p0 < 6, vary_sym(P, i0, p0)),
                                z3.And(j < Sym.lift(L), Sym.lift(seq_at(M, Sym(j))) == DROW(i0, p0)))
         return [("length_is_IDX", Sym.lift(L) == IDX(kk)), ("rows_are_true_derivatives_in_order", claim)]
-    return LoopSpec(inv, havoc=havoc, facts=facts, label="components")
+    return LoopSpec(inv, havoc=havoc, facts=facts, label="components", modifies=lambda c, env: [env.vars['matrix']])
 
 
 def t_jacobian(ctx):
@@ -385,6 +385,7 @@ def t_covar_errors(ctx):
         jv = env.lookup('j') if env.has('j') else None
         one = env.lookup('onesigma')
         claims = []
+        claims.append(("only_stderr_written", all(len(P.writes[f]) == 0 for f in ('value', 'vary', 'min', 'max'))))
         if jv is not None and isinstance(jv, (int, Sym)) and c.ghost.get('j_hoisted', False):
             claims.append(("counter_is_IDX", Sym.lift(jv) == IDX(kk)))
         if isinstance(one, OneSigma):
@@ -417,7 +418,8 @@ def t_covar_errors(ctx):
         pre_stderr = lambda i, p: pre(i, p)
         return inv_(c, env, k)
     ctx.interp.loops["for i in range(*"] = LoopSpec(inv_wrapped, facts=facts, havoc=havoc, label="components",
-                                                      types={'j': 'int', 'p': 'keep', 'prefix': 'keep'})
+                                                      types={'j': 'int', 'p': 'keep', 'prefix': 'keep'},
+                                                      modifies=lambda c, env: [P])
     ctx.assume(IDX(0) == 0)
     # requires (from the call sites): at least as many unmasked pixels as free parameters
     ctx.assume(Sym(IDX(n.e)) <= Sym(z3.Int('npix')))
